@@ -2,8 +2,8 @@
 //! usage: vh c06 <programs.ndjson>    (each line: {id, cfg, vars, body:[stmts]})
 
 use serde_json::{json, Value};
-use crate::common::*;
-use crate::export::Exporter;
+use vh::common::*;
+use vh::export::Exporter;
 
 fn has_diff(v: &Value) -> bool {
     match v {
@@ -13,15 +13,18 @@ fn has_diff(v: &Value) -> bool {
     }
 }
 
-pub fn main(args: &[String]) {
+fn main() {
+    install_panic_hook();
+    let args: Vec<String> = std::env::args().skip(1).collect();
+    let args = &args[..];
     let progs = read_lines(&args[0]);
     let out = std::io::stdout();
     let mut out = std::io::BufWriter::new(out.lock());
     use std::io::Write;
     for p in &progs {
-        let text = crate::render::block_text(&p["body"]);
+        let text = vh::render::block_text(&p["body"]);
         let cfg = &p["cfg"];
-        let mapfile = crate::lang::basic_mapfile(cfg);
+        let mapfile = vh::lang::basic_mapfile(cfg);
         let r = with_truth(|truth| {
             truth.apply_mapfile_str(&mapfile, truth::Game::Th10)?;
             let mut block = front_half(truth, &text, truth::LanguageKey::Anm, true)?;
